@@ -727,6 +727,25 @@ def _pow(b: Any, n: Any) -> Any:
             if c.decide(tb <= 0):
                 raise NotEncodable("non-positive symbolic base with symbolic exponent")
         e = exp_term(ln_term(tb) * real(n.t))
+        if FLOAT_RANGE[0] and isinstance(b, int) and not isinstance(b, bool) and b > 1 and kind_of(n) == "int":
+            # CPython: int ** negative int is a double (0.0 once it underflows), int ** non-negative
+            # int an exact int (which overflows when something later converts it to a double)
+            c.stubs_used.add("int ** int leaves the double range: 0.0 below, OverflowError on conversion above")
+            lo = 0
+            while float(Fraction(b) ** (lo - 1)) != 0.0:
+                lo -= 1
+            lo -= 1                                  # largest exponent whose power is 0.0
+            hi = 0
+            while b ** hi < INT_TO_FLOAT_LIMIT:
+                hi += 1                              # smallest exponent whose power no longer converts
+            if c.decide(n.t <= lo):
+                return 0.0
+            if c.decide(n.t >= 0):
+                v = z3.Int(f"ipow!{c.fresh_counter}")
+                c.fresh_counter += 1
+                c.axiom(z3.And(v >= 1, z3.ToReal(v) == e, (n.t >= hi) == (v >= INT_TO_FLOAT_LIMIT)),
+                        ("ipow", v.get_id()))
+                return SInt(v)
         return mk("dec" if kind == "dec" else "float", e)
     # concrete exponent, symbolic base
     kb = kind_of(b)
